@@ -59,7 +59,9 @@ void harness(void)
 		VERIF_ASSERT(g_alloc_failed > 0, C19_OB("succeeds"));
 		VERIF_ASSERT(g_live == live0, C19_OB("oom.no_leak"));
 		VERIF_COVER(g_alloc_failed == 1 && g_alloc_calls - calls0 == 1);
+#if N > 0
 		VERIF_COVER(g_alloc_failed == 1 && g_alloc_calls - calls0 == 2);
+#endif
 	} else {
 		VERIF_COVER(g_alloc_failed == 0);
 		VERIF_ASSERT(c->base.destroy == TBL_DESTROY &&
